@@ -195,6 +195,11 @@ func (d *DBFT[H]) sendRecoveryRequest() {
 		// and answered then as if the last transaction has just arrived.
 		if d.hasAllTransactions() && !d.ResponseSent() && !d.NotAcceptingPayloadsDueToViewChanging() {
 			d.processCollectedTransactions()
+			// It can end in a view change (and the node can turn out to be
+			// watch-only in the new view) or in a block being accepted.
+			if d.Context.WatchOnly() || d.BlockSent() {
+				return
+			}
 		}
 	}
 	req := d.NewRecoveryRequest(uint64(d.Timer.Now().UnixNano()))
